@@ -13,7 +13,7 @@ CHECKS = {
              technique=DFCC + ', uninterpreted float arithmetic (UF) / symbolic integers / ATOMS', ref='5 (C02), 9'),
  'C03': dict(text='All ways of identifying indices between and within two index lists (ranks 1-3 quick, 1-4 thorough), extents from {1,2,3,V,V+1} distinct on free indices, einsum / contraction / explicit output order / inner / outer / single-tensor forms, int float double: result type (static_assert on the declared shape) and every element == the Einstein sum, ATOMS mode (exact polynomial identity; rounding bound not machine-checked), frame and memory safety.',
              technique=DFCC + ', provenance-concrete (ATOMS) evaluation', ref='5 (C03), 4, 9'),
- 'C08': dict(text='One loop-free unit per (element type, SIMD ABI available under the ISA, operation): load/store/mask forms/broadcast/set/reverse/shift/cast (SYM, all lane values and all masks), integer + - neg abs min max compare logic horizontal sum/min/max (SYM), integer lane products and dot (ATOMS), float + - * / sqrt fmadd family (UF on pipeline P0: lane congruence, bit exact), float min/max/compare/horizontal min/max (SYM, NaN excluded by requires), float horizontal sum/dot (ATOMS: each lane exactly once), horizontal product() of vectors of up to 9 lanes (multilinear in the lanes: TAGS + BASIS pair, every lane exactly once in any association order). rcp/rsqrt error bounds, product() of 16-lane vectors, integer division and complex abs/arg/norm/product/dot are not covered (complex + - * / rcp conj, masked store, sum(), real()/imag() are).',
+ 'C08': dict(text='One loop-free unit per (element type, SIMD ABI available under the ISA, operation): load/store/mask forms/broadcast/set/reverse/shift/cast (SYM, all lane values and all masks), integer + - neg abs min max compare logic horizontal sum/min/max (SYM), integer lane products and dot (ATOMS), float + - * / sqrt fmadd family (UF on pipeline P0: lane congruence, bit exact), float min/max/compare/horizontal min/max (SYM, NaN excluded by requires), float horizontal sum/dot (ATOMS: each lane exactly once), horizontal product() of vectors of up to 9 lanes (multilinear in the lanes: TAGS + BASIS pair, every lane exactly once in any association order). rcp/rsqrt error bounds, product() of 16-lane vectors, integer division and complex abs/arg/product/dot/minimum/maximum are not covered (complex + - * / rcp conj, masked store, sum(), real()/imag(), norm(), magnitude() are).',
              technique=DFCC + ' per SIMD operation; SYM / UF / ATOMS', ref='5 (C08), 9'),
  'C09': dict(text='Each statement is compiled twice in one entry -- with lazy operators (%, trans, inv, cof, adj, solve, det, trace, norm, nested) and with the eager functions and explicit temporaries -- from the same inputs; the two destinations must be equal bit for bit (UF: both run the same kernels, so congruence decides), for 16 kinds of surrounding arithmetic, five assignment operators, destination aliasing as an element-wise operand. Product chains A%B%C(%E) vs the mathematical product by TAGS+BASIS (proof for all values). D op= A%B through the GEMM path only on bounded integer data.',
              technique=DFCC + ', uninterpreted float arithmetic (UF); TAGS+BASIS for product chains', ref='5 (C09), 9'),
